@@ -1,3 +1,5 @@
+//go:build verif_all || verif_c12
+
 package main
 
 import (
